@@ -1373,6 +1373,31 @@ theorem inv_gset (P : Params V) (T : Tables) (hcov : Coverage T = true) (w : Wor
     simp only [hm', Bool.not_false, if_true]
     exact hinv
 
+/-- delivering anything at all to a world that satisfies the invariant keeps it (nothing was rewritten) -/
+theorem inv_skeleton' (P : Params V) (T : Tables) (w : World V) (ds : List (Obj × String)) (hinv : Inv P T w) :
+    Inv P T (applyDeliv T w ds) := by
+  have hss := sameStruct_applyDeliv T w ds
+  refine ⟨?_, ?_, ?_, ?_⟩
+  · intro o nm sk v hs
+    have h1 := (get?_applyDeliv T w ds o nm sk v hs).1
+    unfold fresh
+    rw [viewOf_congr T hss]
+    exact hinv.coh _ _ _ _ h1
+  · intro o ha nm sk
+    rw [attached_congr hss] at ha
+    cases hc : (cacheOf (applyDeliv T w ds) o).get? nm sk with
+    | none => rfl
+    | some v =>
+      have := (get?_applyDeliv T w ds o nm sk v hc).1
+      rw [hinv.loose o ha nm sk] at this; cases this
+  · intro o nm sk v hs
+    have h1 := (get?_applyDeliv T w ds o nm sk v hs).1
+    rw [hss.regs]
+    exact hinv.creg _ _ _ _ h1
+  · intro r hr'
+    rw [hss.regs] at hr'
+    exact hinv.rdef r hr'
+
 /-- operations that change which glyph a name denotes -/
 def Op.isNameOp : Op → Bool
   | .newGlyph _ => true
@@ -1431,6 +1456,9 @@ theorem step_inv_local (P : Params V) (T : Tables) (hcov : Coverage T = true) (h
   | delGlyph name => cases hn
   | rename old new => cases hn
   | gset meth => exact inv_gset P T hcov w meth hinv
+  | touch o meth =>
+    -- nothing is rewritten: whatever is delivered only removes entries
+    exact inv_skeleton' P T w _ hinv
 
 end Repr
 end DefconModel
